@@ -215,6 +215,14 @@ def _lint_file_worker(args: tuple[Path, Path, dict]) -> list[dict]:
         violations = orchestrator.lint_file(file_path)
         # Convert to dicts for pickling
         return [v.to_dict() for v in violations]
+    except UnicodeError as exc:
+        _verif_tap("worker", "", file_path, exc)
+        logger.exception("Worker error processing file: %s", file_path)
+        return []
+    except ValueError:
+        # Configuration validation errors are user-facing (see _safe_check_rule): hand them
+        # to the parent process instead of reporting an empty result for the file
+        raise
     except Exception as exc:
         _verif_tap("worker", "", file_path, exc)
         logger.exception("Worker error processing file: %s", file_path)
@@ -499,6 +507,14 @@ class Orchestrator:  # thailint: ignore[srp]
         """Extract violations from a completed future, handling errors."""
         try:
             return [Violation.from_dict(d) for d in future.result()]
+        except UnicodeError as exc:
+            _verif_tap("future", "", "", exc)
+            logger.exception("Error extracting violations from worker future")
+            return []
+        except ValueError:
+            # Configuration validation errors raised in a worker are user-facing,
+            # exactly as in the sequential run (see _safe_check_rule)
+            raise
         except Exception as exc:
             _verif_tap("future", "", "", exc)
             logger.exception("Error extracting violations from worker future")
